@@ -324,7 +324,7 @@ reg("C02", runner="sync", needs_cli=True, rule=_ATTACK_RULE, diffs=_ATTACK_DIFF,
              251: "the attack command, interrupted once, did not write exactly one result per started hit (sequence numbers 0..n-1, every request the server saw)",
              252: "the attack command, interrupted while requests were still in flight, ended without waiting for them"},
     assumptions=_ATTACK_ASSUME + ["four runs of the real `vegeta attack` (20..120 requests/s against a local server answering after 20..170 ms) are interrupted once with SIGINT after 0.3..0.8 s: the command's result pump and first-signal path (attack.go) are observed end to end; three more runs have 1..3 requests that never complete: the command must still be running 0.8..1.5 s after the interrupt (a second interrupt then ends the run; what the command does on it is recorded, not judged - the second-signal path is not a subject of the property)",
-                                  "outside the bubble, on the real scheduler: 4 x 750 rounds (thorough 4 x 10^4) of 2*GOMAXPROCS goroutines calling Stop on one Attacker at the same instant (initiators counted per round), and 6 real attacks of an Attacker built with DNSCaching(ttl > 0) that end by duration / pacer stop / targeter failure, after which no goroutine may still execute code of the library (stack dump, first frame's file)"],
+                                  "outside the bubble, on the real scheduler: 4 x 750 rounds (thorough 4 x 10^4) of 2*GOMAXPROCS goroutines calling Stop on one Attacker at the same instant (initiators counted per round), and 6 real attacks of an Attacker built with DNSCaching(ttl > 0) that end by duration / pacer stop / targeter failure, after which no goroutine may still execute code of the library (stack dump, first frame's file); three runs call Stop before Attack on the same Attacker: the stop must not be forgotten (the attack ends by itself, a later Stop does not report having initiated)"],
     trusted_base=_ATTACK_TB,
     level_text="seqs_exact, close_after_all, close_at_most_once, ends_cleanly_progress/terminates/final, stop_exactly_one(+_when_ended), stop_once_flag_exactly_one are proved in Coq as invariants over every label sequence of an executable LTS of Attack/attack/hit/Stop (all interleavings, any length, any configuration with max-workers >= 1); the LTS is tied to the code by trace acceptance: scripted real attacks under synctest must be runs of the model (verified-by-construction search over model states), and the property's clauses are also decided directly on every observed trace.",
     technique="Coq inductive invariants over an LTS (all schedules) + trace acceptance of real runs under synctest",
